@@ -461,6 +461,18 @@ where
       //
       // Without this chek the addition operation below could overflow.
       Err(speedy::Error::custom(format!("NumberSet size too large: {} > 256.", num_bits)).into())
+    } else if i64::from(bitmap_base.clone())
+      .checked_add(num_bits as i64)
+      .is_none()
+    {
+      // Members are computed as base + offset. Reject sets where that would overflow.
+      Err(
+        speedy::Error::custom(format!(
+          "NumberSet base too large: {:?} + {}",
+          bitmap_base, num_bits
+        ))
+        .into(),
+      )
     } else {
       let word_count = (num_bits + 31) / 32;
       let mut bitmap: Vec<u32> = Vec::with_capacity(word_count as usize);
